@@ -83,16 +83,19 @@ impl<const K: usize> AffTree<K> {
 
 // ---------------------------------------------------------------- specification of grafting
 // the listed terminals are distinct leaves of the tree whose output feeds the left operand (dimension dl)
+#[verifier::opaque]
 pub open spec fn terminals_ok<const K: usize>(a: AArena<K>, ts: Seq<usize>, dl: usize) -> bool {
     &&& forall|j: int| 0 <= j < ts.len() ==> a.dom().contains(#[trigger] ts[j]) && a[ts[j]].isleaf && a[ts[j]].value.aff.mat.nrows() == dl
     &&& forall|j1: int, j2: int| 0 <= j1 < j2 < ts.len() ==> ts[j1] != ts[j2]
 }
 // nodes of the tree as it was before keep their index and parent; decisions and unlisted terminals are untouched
+#[verifier::opaque]
 pub open spec fn old_nodes_kept<const K: usize>(a0: AArena<K>, a1: AArena<K>, ts: Seq<usize>) -> bool {
-    forall|i: usize| #![trigger a1[i]] a0.dom().contains(i) ==> a1.dom().contains(i) && a1[i].parent == a0[i].parent
+    forall|i: usize| #![trigger a1[i]] #![trigger a0.dom().contains(i)] a0.dom().contains(i) ==> a1.dom().contains(i) && a1[i].parent == a0[i].parent
         && (!a0[i].isleaf || !ts.contains(i) ==> a1[i] == a0[i])
 }
 // a1 extends a0 and differs from it on old indices at most at t
+#[verifier::opaque]
 pub open spec fn frame_except<const K: usize>(a0: AArena<K>, a1: AArena<K>, t: usize) -> bool {
     forall|i: usize| #![trigger a1[i]] #![trigger a0.dom().contains(i)] a0.dom().contains(i) ==> a1.dom().contains(i) && a1[i].parent == a0[i].parent && (i != t ==> a1[i] == a0[i])
 }
@@ -113,6 +116,7 @@ pub open spec fn kids_mirror<const K: usize>(src: AffNode<K>, cp: AffNode<K>, ph
 // ghost state of grafting one copy of the left operand (arena al, root rl) below terminal t (function f):
 // phi maps the lhs nodes copied so far to their copies, `done` are the lhs nodes whose children have been copied,
 // `cur` is the node whose children are being copied
+#[verifier::opaque]
 pub open spec fn graft_inv<const K: usize>(al: AArena<K>, a: AArena<K>, dom0: Set<usize>, phi: Map<usize, usize>, done: Set<usize>, cur: Option<usize>,
     rl: usize, t: usize, fm: M, fb: V, in_dim: usize) -> bool
 {
@@ -124,12 +128,14 @@ pub open spec fn graft_inv<const K: usize>(al: AArena<K>, a: AArena<K>, dom0: Se
     &&& forall|p: usize| #[trigger] phi.dom().contains(p) && !done.contains(p) && Some(p) != cur ==> a[phi[p]].isleaf && no_kids(a[phi[p]])
     &&& forall|q: usize| #[trigger] phi.dom().contains(q) && q != rl ==> al[q].parent is Some && (done.contains(al[q].parent.unwrap()) || cur == Some(al[q].parent.unwrap()))
 }
+#[verifier::opaque]
 pub open spec fn stack_ok(phi: Map<usize, usize>, done: Set<usize>, cur: Option<usize>, stack: Seq<(usize, usize)>) -> bool {
     &&& forall|j: int| 0 <= j < stack.len() ==> phi.dom().contains((#[trigger] stack[j]).0) && phi[stack[j].0] == stack[j].1 && !done.contains(stack[j].0) && Some(stack[j].0) != cur
     &&& forall|j1: int, j2: int| 0 <= j1 < j2 < stack.len() ==> (#[trigger] stack[j1]).0 != (#[trigger] stack[j2]).0
     &&& forall|p: usize| #[trigger] phi.dom().contains(p) && !done.contains(p) && Some(p) != cur ==> exists|j: int| 0 <= j < stack.len() && (#[trigger] stack[j]).0 == p
 }
 // a complete copy of the left operand hangs below t
+#[verifier::opaque]
 pub open spec fn grafted<const K: usize>(al: AArena<K>, a: AArena<K>, dom0: Set<usize>, rl: usize, t: usize, fm: M, fb: V, in_dim: usize) -> bool {
     exists|phi: Map<usize, usize>| #[trigger] graft_inv(al, a, dom0, phi, phi.dom(), None, rl, t, fm, fb, in_dim)
 }
@@ -158,6 +164,7 @@ pub proof fn lemma_label_val_eq(a: &AffFunc, b: &AffFunc, x: V, y: V, n: int)
     ensures label_val(a, x, n) == label_val(b, y, n)
     decreases n
 {
+    reveal(terminals_ok); reveal(old_nodes_kept); reveal(frame_except); reveal(graft_inv); reveal(stack_ok); reveal(grafted);
     if n > 0 { lemma_label_val_eq(a, b, x, y, n - 1); }
 }
 
@@ -167,6 +174,7 @@ pub proof fn lemma_graft_init<const K: usize>(al: AArena<K>, a: AArena<K>, dom0:
     ensures graft_inv(al, a, dom0, Map::<usize, usize>::empty().insert(rl, t), Set::<usize>::empty(), None, rl, t, fm, fb, in_dim),
         stack_ok(Map::<usize, usize>::empty().insert(rl, t), Set::<usize>::empty(), None, seq![(rl, t)])
 {
+    reveal(terminals_ok); reveal(old_nodes_kept); reveal(frame_except); reveal(graft_inv); reveal(stack_ok); reveal(grafted);
     let phi = Map::<usize, usize>::empty().insert(rl, t);
     let st = seq![(rl, t)];
     assert forall|p: usize| #[trigger] phi.dom().contains(p) implies exists|j: int| 0 <= j < st.len() && (#[trigger] st[j]).0 == p by { assert(st[0].0 == rl); }
@@ -182,6 +190,7 @@ pub proof fn lemma_graft_pop<const K: usize>(al: AArena<K>, a: AArena<K>, dom0: 
         a[st.last().1].isleaf && no_kids(a[st.last().1]),
         forall|l: int| 0 <= l < K && (#[trigger] al[st.last().0].children[l]).is_some() ==> !phi.dom().contains(al[st.last().0].children[l].unwrap()),
 {
+    reveal(terminals_ok); reveal(old_nodes_kept); reveal(frame_except); reveal(graft_inv); reveal(stack_ok); reveal(grafted);
     let p0 = st.last().0;
     let rest = st.drop_last();
     assert(st[st.len() - 1] == st.last());
@@ -212,6 +221,7 @@ pub proof fn lemma_graft_child<const K: usize>(al: AArena<K>, a_s: AArena<K>, a0
     ensures graft_inv(al, a1, a_s.dom(), phi.insert(c0, c), done, Some(p0), rl, t, fm, fb, in_dim), stack_ok(phi.insert(c0, c), done, Some(p0), st.push((c0, c))),
         frame_except(a_s, a1, t),
 {
+    reveal(terminals_ok); reveal(old_nodes_kept); reveal(frame_except); reveal(graft_inv); reveal(stack_ok); reveal(grafted);
     let p1 = phi[p0];
     let phi1 = phi.insert(c0, c);
     let st1 = st.push((c0, c));
@@ -280,6 +290,7 @@ pub proof fn lemma_graft_done<const K: usize>(al: AArena<K>, a: AArena<K>, dom0:
         phi.dom().contains(p0), kids_mirror(al[p0], a[phi[p0]], phi),
     ensures graft_inv(al, a, dom0, phi, done.insert(p0), None, rl, t, fm, fb, in_dim), stack_ok(phi, done.insert(p0), None, st),
 {
+    reveal(terminals_ok); reveal(old_nodes_kept); reveal(frame_except); reveal(graft_inv); reveal(stack_ok); reveal(grafted);
     let done1 = done.insert(p0);
     assert forall|p: usize| #[trigger] phi.dom().contains(p) && !done1.contains(p) implies exists|j: int| 0 <= j < st.len() && (#[trigger] st[j]).0 == p by {
         assert(Some(p) != Some(p0));
@@ -294,6 +305,7 @@ pub proof fn lemma_shape_child<const K: usize>(al: AArena<K>, a0: AArena<K>, a1:
         a0[p1].value.aff.mat.nrows() == al[p0].value.aff.mat.nrows(),
     ensures aff_shape_ok(a1, in_dim)
 {
+    reveal(terminals_ok); reveal(old_nodes_kept); reveal(frame_except); reveal(graft_inv); reveal(stack_ok); reveal(grafted);
     assert forall|i: usize| #![trigger a1[i].value] a1.dom().contains(i) implies a1[i].value.aff.ok() && a1[i].value.aff.mat.ncols() == in_dim
         && (!a1[i].isleaf ==> 1 <= a1[i].value.aff.mat.nrows() < 16 && (1usize << (a1[i].value.aff.mat.nrows() as usize)) <= K) by {
         if i != c && i != p1 { assert(a1[i] == a0[i]); }
@@ -311,6 +323,7 @@ pub proof fn lemma_mirror_from_kids<const K: usize>(src: AffNode<K>, cp: AffNode
         forall|l: int| 0 <= l < K && (#[trigger] cp.children[l]).is_some() ==> exists|j: int| 0 <= j < kid_seq(src.children, 0).len() && (#[trigger] kid_seq(src.children, 0)[j]).0 == l,
     ensures kids_mirror(src, cp, phi)
 {
+    reveal(terminals_ok); reveal(old_nodes_kept); reveal(frame_except); reveal(graft_inv); reveal(stack_ok); reveal(grafted);
     let ks = kid_seq(src.children, 0);
     lemma_kid_seq_members(src.children, 0);
     lemma_kid_seq_len(src.children, 0);
@@ -341,6 +354,7 @@ pub proof fn lemma_graft_finish<const K: usize>(al: AArena<K>, a: AArena<K>, dom
         forall|i: usize| #[trigger] dom0.contains(i) ==> dom1.contains(i),
     ensures grafted(al, a, dom0, rl, t, fm, fb, in_dim)
 {
+    reveal(terminals_ok); reveal(old_nodes_kept); reveal(frame_except); reveal(graft_inv); reveal(stack_ok); reveal(grafted);
     assert forall|p: usize| #[trigger] phi.dom().contains(p) implies done.contains(p) by {
         if !done.contains(p) {
             let j = choose|j: int| 0 <= j < Seq::<(usize, usize)>::empty().len() && (#[trigger] Seq::<(usize, usize)>::empty()[j]).0 == p;
@@ -355,6 +369,7 @@ pub proof fn lemma_graft_frame<const K: usize>(al: AArena<K>, a: AArena<K>, a2: 
     requires grafted(al, a, dom0, rl, t, fm, fb, in_dim), frame_except(a, a2, t2), dom0.contains(t2), t2 != t
     ensures grafted(al, a2, dom0, rl, t, fm, fb, in_dim)
 {
+    reveal(terminals_ok); reveal(old_nodes_kept); reveal(frame_except); reveal(graft_inv); reveal(stack_ok); reveal(grafted);
     let phi = choose|phi: Map<usize, usize>| #[trigger] graft_inv(al, a, dom0, phi, phi.dom(), None, rl, t, fm, fb, in_dim);
     assert forall|p: usize| #[trigger] phi.dom().contains(p) implies a2[phi[p]] == a[phi[p]] && a2.dom().contains(phi[p]) by {}
     assert(graft_inv(al, a2, dom0, phi, phi.dom(), None, rl, t, fm, fb, in_dim));
@@ -367,6 +382,7 @@ pub proof fn lemma_graft_sem<const K: usize>(al: AArena<K>, hl: Map<usize, nat>,
     ensures tree_fn(a, h, phi[p], x) == tree_fn(al, hl, p, vadd(mv(fm, x), fb))
     decreases hl[p]
 {
+    reveal(terminals_ok); reveal(old_nodes_kept); reveal(frame_except); reveal(graft_inv); reveal(stack_ok); reveal(grafted);
     let src = al[p];
     let cp = a[phi[p]];
     assert(copy_ok(src, cp, fm, fb, in_dim));
@@ -399,6 +415,7 @@ pub proof fn lemma_comp_final<const K: usize>(a0: AArena<K>, h0: Map<usize, nat>
     ensures tree_fn(a1, h1, idx, x) == comp_fn(a0, h0, ts, al, hl, rl, idx, x)
     decreases h0[idx]
 {
+    reveal(terminals_ok); reveal(old_nodes_kept); reveal(frame_except); reveal(graft_inv); reveal(stack_ok); reveal(grafted);
     let nd = a0[idx];
     assert(a1.dom().contains(idx));
     if nd.isleaf {
@@ -432,6 +449,7 @@ pub proof fn lemma_comp_all<const K: usize>(a0: AArena<K>, h0: Map<usize, nat>, 
     ensures comp_fn(a0, h0, ts, al, hl, rl, idx, x) == and_then_fn(a0, h0, al, hl, rl, idx, x)
     decreases h0[idx]
 {
+    reveal(terminals_ok); reveal(old_nodes_kept); reveal(frame_except); reveal(graft_inv); reveal(stack_ok); reveal(grafted);
     let nd = a0[idx];
     if !nd.isleaf {
         let l = decide(&nd.value.aff, x);
@@ -441,6 +459,200 @@ pub proof fn lemma_comp_all<const K: usize>(a0: AArena<K>, h0: Map<usize, nat>, 
             lemma_comp_all(a0, h0, ts, al, hl, rl, c, x);
         }
     }
+}
+
+
+// ---------------------------------------------------------------- loop-level predicates and steps (what the loop invariants are made of)
+// terminals from position t on are as they were
+#[verifier::opaque]
+pub open spec fn untouched<const K: usize>(a0: AArena<K>, a: AArena<K>, ts: Seq<usize>, t: int) -> bool {
+    forall|j: int| t <= j < ts.len() ==> a[#[trigger] ts[j]] == a0[ts[j]]
+}
+// terminals before position t carry their copy of the left operand
+#[verifier::opaque]
+pub open spec fn grafted_upto<const K: usize>(al: AArena<K>, a: AArena<K>, a0: AArena<K>, rl: usize, ts: Seq<usize>, t: int, in_dim: usize) -> bool {
+    forall|j: int| 0 <= j < t && j < ts.len() ==> grafted(al, a, a0.dom(), rl, #[trigger] ts[j], a0[ts[j]].value.aff.mat.m(), a0[ts[j]].value.aff.bias.v(), in_dim)
+}
+// progress of copying the children ks (label, index) of the current node: the first i are mirrored in the copy cp, the others not yet
+#[verifier::opaque]
+pub open spec fn kids_progress<const K: usize>(ks: Seq<(usize, usize)>, cp: AffNode<K>, phi: Map<usize, usize>, i: int) -> bool {
+    &&& forall|j: int| i <= j < ks.len() ==> cp.children[(#[trigger] ks[j]).0 as int].is_none() && !phi.dom().contains(ks[j].1)
+    &&& forall|j: int| 0 <= j < i && j < ks.len() ==> phi.dom().contains((#[trigger] ks[j]).1) && cp.children[ks[j].0 as int] == Some(phi[ks[j].1])
+    &&& forall|l: int| 0 <= l < K && (#[trigger] cp.children[l]).is_some() ==> exists|j: int| 0 <= j < i && j < ks.len() && (#[trigger] ks[j]).0 == l
+    &&& cp.isleaf <==> i == 0
+}
+
+// taking up terminal number t
+pub proof fn lemma_pick<const K: usize>(a0: AArena<K>, a: AArena<K>, ts: Seq<usize>, t: int, dl: usize, in_dim: usize)
+    requires terminals_ok(a0, ts, dl), old_nodes_kept(a0, a, ts), untouched(a0, a, ts, t), leaf_ok(a), aff_shape_ok(a, in_dim), 0 <= t < ts.len()
+    ensures a.dom().contains(ts[t]), a[ts[t]] == a0[ts[t]], a[ts[t]].isleaf, no_kids(a[ts[t]]), a0.dom().contains(ts[t]),
+        a[ts[t]].value.aff.mat.nrows() == dl, a[ts[t]].value.aff.ok(), a[ts[t]].value.aff.mat.ncols() == in_dim,
+{
+    reveal(terminals_ok); reveal(old_nodes_kept); reveal(frame_except); reveal(graft_inv); reveal(stack_ok); reveal(grafted); reveal(untouched); reveal(grafted_upto); reveal(kids_progress);
+    assert(a0.dom().contains(ts[t]));
+    assert(a[ts[t]] == a0[ts[t]]);
+}
+
+// after the terminal received the composed root function
+pub proof fn lemma_start<const K: usize>(al: AArena<K>, a_s: AArena<K>, a: AArena<K>, rl: usize, t: usize, fm: M, fb: V, in_dim: usize)
+    requires al.dom().contains(rl), a_s.dom().contains(t), a_s[t].isleaf, no_kids(a_s[t]), aff_shape_ok(a_s, in_dim),
+        same_shape(a_s, a), forall|i: usize| a_s.dom().contains(i) && i != t ==> a[i] == a_s[i],
+        copy_ok(al[rl], a[t], fm, fb, in_dim),
+    ensures graft_inv(al, a, a_s.dom(), Map::<usize, usize>::empty().insert(rl, t), Set::<usize>::empty(), None, rl, t, fm, fb, in_dim),
+        stack_ok(Map::<usize, usize>::empty().insert(rl, t), Set::<usize>::empty(), None, seq![(rl, t)]),
+        frame_except(a_s, a, t), aff_shape_ok(a, in_dim),
+{
+    reveal(terminals_ok); reveal(old_nodes_kept); reveal(frame_except); reveal(graft_inv); reveal(stack_ok); reveal(grafted); reveal(untouched); reveal(grafted_upto); reveal(kids_progress);
+    assert(a[t].isleaf && a[t].children == a_s[t].children);
+    assert(no_kids(a[t]));
+    lemma_graft_init(al, a, a_s.dom(), rl, t, fm, fb, in_dim);
+    assert forall|i: usize| #![trigger a[i].value] a.dom().contains(i) implies a[i].value.aff.ok() && a[i].value.aff.mat.ncols() == in_dim
+        && (!a[i].isleaf ==> 1 <= a[i].value.aff.mat.nrows() < 16 && (1usize << (a[i].value.aff.mat.nrows() as usize)) <= K) by {
+        if i != t { assert(a[i] == a_s[i]); }
+    }
+}
+
+// popping a work item (the stack before the pop is only known to exist)
+pub proof fn lemma_pop_ex<const K: usize>(al: AArena<K>, rootl: Option<usize>, a: AArena<K>, dom0: Set<usize>, phi: Map<usize, usize>, done: Set<usize>,
+    rl: usize, t: usize, fm: M, fb: V, in_dim: usize, st: Seq<(usize, usize)>, it: (usize, usize))
+    requires graft_inv(al, a, dom0, phi, done, None, rl, t, fm, fb, in_dim), wf_at(al, rootl), rootl == Some(rl),
+        exists|s0: Seq<(usize, usize)>| #[trigger] stack_ok(phi, done, None, s0) && s0.len() > 0 && s0.last() == it && s0.drop_last() == st,
+    ensures graft_inv(al, a, dom0, phi, done, Some(it.0), rl, t, fm, fb, in_dim), stack_ok(phi, done, Some(it.0), st),
+        phi.dom().contains(it.0), phi[it.0] == it.1, !done.contains(it.0),
+        al.dom().contains(it.0), a.dom().contains(it.1), copy_ok(al[it.0], a[it.1], fm, fb, in_dim),
+        kids_progress(kid_seq(al[it.0].children, 0), a[it.1], phi, 0),
+{
+    reveal(terminals_ok); reveal(old_nodes_kept); reveal(frame_except); reveal(graft_inv); reveal(stack_ok); reveal(grafted); reveal(untouched); reveal(grafted_upto); reveal(kids_progress);
+    let s0 = choose|s0: Seq<(usize, usize)>| #[trigger] stack_ok(phi, done, None, s0) && s0.len() > 0 && s0.last() == it && s0.drop_last() == st;
+    lemma_graft_pop(al, a, dom0, phi, done, rl, t, fm, fb, in_dim, s0);
+    lemma_kid_seq_members(al[it.0].children, 0);
+    let ks = kid_seq(al[it.0].children, 0);
+    assert forall|j: int| 0 <= j < ks.len() implies a[it.1].children[(#[trigger] ks[j]).0 as int].is_none() && !phi.dom().contains(ks[j].1) by {
+        assert(al[it.0].children[ks[j].0 as int] == Some(ks[j].1));
+    }
+}
+
+// one child of the current node copied (state before: a0, i; after: a1, i + 1)
+pub proof fn lemma_child_step<const K: usize>(al: AArena<K>, rootl: Option<usize>, dl: usize, a_s: AArena<K>, a0: AArena<K>, a1: AArena<K>, phi: Map<usize, usize>, done: Set<usize>,
+    rl: usize, t: usize, fm: M, fb: V, in_dim: usize, st: Seq<(usize, usize)>, p0: usize, i: int, c: usize)
+    requires graft_inv(al, a0, a_s.dom(), phi, done, Some(p0), rl, t, fm, fb, in_dim), stack_ok(phi, done, Some(p0), st),
+        phi.dom().contains(p0), !done.contains(p0), al.dom().contains(p0), wf_at(al, rootl), aff_shape_ok(al, dl),
+        frame_except(a_s, a0, t), aff_shape_ok(a0, in_dim),
+        0 <= i < kid_seq(al[p0].children, 0).len(), kids_progress(kid_seq(al[p0].children, 0), a0[phi[p0]], phi, i),
+        a0[phi[p0]].value.aff.mat.nrows() == al[p0].value.aff.mat.nrows(),
+        child_added(a0, a1, phi[p0], kid_seq(al[p0].children, 0)[i].0, c), a1[phi[p0]].value == a0[phi[p0]].value,
+        copy_ok(al[kid_seq(al[p0].children, 0)[i].1], a1[c], fm, fb, in_dim),
+    ensures
+        graft_inv(al, a1, a_s.dom(), phi.insert(kid_seq(al[p0].children, 0)[i].1, c), done, Some(p0), rl, t, fm, fb, in_dim),
+        stack_ok(phi.insert(kid_seq(al[p0].children, 0)[i].1, c), done, Some(p0), st.push((kid_seq(al[p0].children, 0)[i].1, c))),
+        frame_except(a_s, a1, t), aff_shape_ok(a1, in_dim),
+        kids_progress(kid_seq(al[p0].children, 0), a1[phi[p0]], phi.insert(kid_seq(al[p0].children, 0)[i].1, c), i + 1),
+{
+    reveal(terminals_ok); reveal(old_nodes_kept); reveal(frame_except); reveal(graft_inv); reveal(stack_ok); reveal(grafted); reveal(untouched); reveal(grafted_upto); reveal(kids_progress);
+    let ks = kid_seq(al[p0].children, 0);
+    let label = ks[i].0;
+    let c0 = ks[i].1;
+    let p1 = phi[p0];
+    lemma_kid_seq_members(al[p0].children, 0);
+    assert(al[p0].children[label as int] == Some(c0));
+    assert(!phi.dom().contains(c0));
+    lemma_graft_child(al, a_s, a0, a1, phi, done, rl, t, fm, fb, in_dim, st, p0, label, c0, c);
+    assert(!al[p0].isleaf) by { if al[p0].isleaf { assert(no_kids(al[p0])); } }
+    lemma_shape_child(al, a0, a1, in_dim, dl, p0, p1, label, c);
+    let phi1 = phi.insert(c0, c);
+    let cp = a1[p1];
+    assert forall|l: int| 0 <= l < K && l != label implies cp.children[l] == a0[p1].children[l] by { assert(cp.children@[l] == a0[p1].children@[l]); }
+    assert(cp.children[label as int] == Some(c)) by { assert(cp.children@[label as int] == Some(c)); }
+    assert forall|j: int| i + 1 <= j < ks.len() implies cp.children[(#[trigger] ks[j]).0 as int].is_none() && !phi1.dom().contains(ks[j].1) by {
+        assert(ks[i].0 < ks[j].0);
+        // two different slots of p0 never hold the same child
+        assert(al[p0].children[ks[j].0 as int] == Some(ks[j].1));
+    }
+    assert forall|j: int| 0 <= j < i + 1 && j < ks.len() implies phi1.dom().contains((#[trigger] ks[j]).1) && cp.children[ks[j].0 as int] == Some(phi1[ks[j].1]) by {
+        if j < i {
+            assert(ks[j].0 < ks[i].0);
+            assert(al[p0].children[ks[j].0 as int] == Some(ks[j].1));
+        }
+    }
+    assert forall|l: int| 0 <= l < K && (#[trigger] cp.children[l]).is_some() implies exists|j: int| 0 <= j < i + 1 && j < ks.len() && (#[trigger] ks[j]).0 == l by {
+        if l == label { assert(ks[i].0 == l); }
+        else {
+            assert(a0[p1].children[l].is_some());
+            let j = choose|j: int| 0 <= j < i && j < ks.len() && (#[trigger] ks[j]).0 == l;
+            assert(0 <= j < i + 1 && ks[j].0 == l);
+        }
+    }
+}
+
+// all children of the current node copied
+pub proof fn lemma_node_done<const K: usize>(al: AArena<K>, rootl: Option<usize>, a: AArena<K>, dom0: Set<usize>, phi: Map<usize, usize>, done: Set<usize>,
+    rl: usize, t: usize, fm: M, fb: V, in_dim: usize, st: Seq<(usize, usize)>, p0: usize)
+    requires graft_inv(al, a, dom0, phi, done, Some(p0), rl, t, fm, fb, in_dim), stack_ok(phi, done, Some(p0), st),
+        phi.dom().contains(p0), al.dom().contains(p0), wf_at(al, rootl),
+        kids_progress(kid_seq(al[p0].children, 0), a[phi[p0]], phi, kid_seq(al[p0].children, 0).len() as int),
+    ensures graft_inv(al, a, dom0, phi, done.insert(p0), None, rl, t, fm, fb, in_dim), stack_ok(phi, done.insert(p0), None, st),
+{
+    reveal(terminals_ok); reveal(old_nodes_kept); reveal(frame_except); reveal(graft_inv); reveal(stack_ok); reveal(grafted); reveal(untouched); reveal(grafted_upto); reveal(kids_progress);
+    lemma_mirror_from_kids(al[p0], a[phi[p0]], phi);
+    lemma_graft_done(al, a, dom0, phi, done, rl, t, fm, fb, in_dim, st, p0);
+}
+
+// the copy below terminal number t - 1 is complete: back to the invariant of the outer loop
+pub proof fn lemma_terminal_done<const K: usize>(al: AArena<K>, a0: AArena<K>, a_s: AArena<K>, a: AArena<K>, ts: Seq<usize>, t: int, dl: usize,
+    phi: Map<usize, usize>, done: Set<usize>, rl: usize, fm: M, fb: V, in_dim: usize)
+    requires 0 < t <= ts.len(), terminals_ok(a0, ts, dl), old_nodes_kept(a0, a_s, ts), untouched(a0, a_s, ts, t - 1), grafted_upto(al, a_s, a0, rl, ts, t - 1, in_dim),
+        frame_except(a_s, a, ts[t - 1]),
+        graft_inv(al, a, a_s.dom(), phi, done, None, rl, ts[t - 1], fm, fb, in_dim), stack_ok(phi, done, None, Seq::<(usize, usize)>::empty()),
+        fm == a0[ts[t - 1]].value.aff.mat.m(), fb == a0[ts[t - 1]].value.aff.bias.v(),
+    ensures old_nodes_kept(a0, a, ts), untouched(a0, a, ts, t), grafted_upto(al, a, a0, rl, ts, t, in_dim),
+{
+    reveal(terminals_ok); reveal(old_nodes_kept); reveal(frame_except); reveal(graft_inv); reveal(stack_ok); reveal(grafted); reveal(untouched); reveal(grafted_upto); reveal(kids_progress);
+    let tt = ts[t - 1];
+    assert(a0.dom().contains(tt) && a0[tt].isleaf);
+    assert(ts.contains(tt));
+    assert forall|i: usize| a0.dom().contains(i) implies #[trigger] a_s.dom().contains(i) by { }
+    lemma_graft_finish(al, a, a_s.dom(), a0.dom(), phi, done, rl, tt, fm, fb, in_dim);
+    assert forall|j: int| 0 <= j < t && j < ts.len() implies grafted(al, a, a0.dom(), rl, #[trigger] ts[j], a0[ts[j]].value.aff.mat.m(), a0[ts[j]].value.aff.bias.v(), in_dim) by {
+        if j < t - 1 {
+            lemma_graft_frame(al, a_s, a, a0.dom(), rl, ts[j], a0[ts[j]].value.aff.mat.m(), a0[ts[j]].value.aff.bias.v(), in_dim, tt);
+        }
+    }
+    assert forall|j: int| t <= j < ts.len() implies a[#[trigger] ts[j]] == a0[ts[j]] by {
+        assert(a_s[ts[j]] == a0[ts[j]]);
+        assert(a_s.dom().contains(ts[j]));
+    }
+    assert forall|i: usize| #![trigger a[i]] a0.dom().contains(i) implies a.dom().contains(i) && a[i].parent == a0[i].parent
+        && (!a0[i].isleaf || !ts.contains(i) ==> a[i] == a0[i]) by {
+        assert(a_s.dom().contains(i) && a_s[i].parent == a0[i].parent);
+    }
+}
+
+pub proof fn lemma_outer_init<const K: usize>(al: AArena<K>, a0: AArena<K>, rl: usize, ts: Seq<usize>, in_dim: usize)
+    ensures old_nodes_kept(a0, a0, ts), untouched(a0, a0, ts, 0), grafted_upto(al, a0, a0, rl, ts, 0, in_dim)
+{
+    reveal(terminals_ok); reveal(old_nodes_kept); reveal(frame_except); reveal(graft_inv); reveal(stack_ok); reveal(grafted); reveal(untouched); reveal(grafted_upto); reveal(kids_progress);
+}
+
+pub proof fn lemma_outer_exit<const K: usize>(al: AArena<K>, a0: AArena<K>, a: AArena<K>, rl: usize, ts: Seq<usize>, in_dim: usize)
+    requires grafted_upto(al, a, a0, rl, ts, ts.len() as int, in_dim)
+    ensures forall|j: int| 0 <= j < ts.len() ==> grafted(al, a, a0.dom(), rl, #[trigger] ts[j], a0[ts[j]].value.aff.mat.m(), a0[ts[j]].value.aff.bias.v(), in_dim)
+{
+    reveal(terminals_ok); reveal(old_nodes_kept); reveal(frame_except); reveal(graft_inv); reveal(stack_ok); reveal(grafted); reveal(untouched); reveal(grafted_upto); reveal(kids_progress);
+}
+
+// rule I8 + the facts compose needs about the list: all terminals, each once, each feeding the left operand
+pub fn leaves_for<const K: usize>(t: &Tree<AffContent, K>, Ghost(dl): Ghost<usize>) -> (r: Vec<usize>)
+    requires forall|i: usize| t.arena@.dom().contains(i) && #[trigger] t.arena@[i].isleaf ==> t.arena@[i].value.aff.mat.nrows() == dl
+    ensures terminals_ok(t.arena@, r@, dl), forall|i: usize| t.arena@.dom().contains(i) && #[trigger] t.arena@[i].isleaf ==> r@.contains(i)
+{
+    let r = terminal_indices_vec(t);
+    proof {
+        reveal(terminals_ok);
+        assert forall|j: int| 0 <= j < r@.len() implies t.arena@.dom().contains(#[trigger] r@[j]) && t.arena@[r@[j]].isleaf && t.arena@[r@[j]].value.aff.mat.nrows() == dl by {
+            assert(r@.contains(r@[j]));
+        }
+    }
+    r
 }
 
 impl<const K: usize> AffTree<K> {
@@ -492,9 +704,13 @@ impl<const K: usize> AffTree<K> {
             #![trigger tree_fn(final(rhs).a(), h1, old(rhs).tree.root.unwrap(), x), and_then_fn(old(rhs).a(), h0, lhs.a(), hl, lhs.tree.root.unwrap(), old(rhs).tree.root.unwrap(), x)]
             old(rhs).tree.root is Some && ranked_down(old(rhs).a(), h0) && ranked_down(final(rhs).a(), h1) && ranked_down(lhs.a(), hl) && x.len() == old(rhs).in_dim ==>
             tree_fn(final(rhs).a(), h1, old(rhs).tree.root.unwrap(), x) == and_then_fn(old(rhs).a(), h0, lhs.a(), hl, lhs.tree.root.unwrap(), old(rhs).tree.root.unwrap(), x),
-//@hint end
+//@hint start
+        let ghost rl = lhs.tree.root.unwrap();
+        proof { lemma_outer_init(lhs.a(), rhs.a(), rl, terminals@, rhs.in_dim); }
+//@hint loop 1 after
         proof {
-            let a0 = old(rhs).a(); let a1 = rhs.a(); let al = lhs.a(); let rl = lhs.tree.root.unwrap(); let ts = terminals@;
+            let a0 = old(rhs).a(); let a1 = rhs.a(); let al = lhs.a(); let ts = terminals@;
+            lemma_outer_exit(al, a0, a1, rl, ts, rhs.in_dim);
             if old(rhs).tree.root is Some {
                 let r0 = old(rhs).tree.root.unwrap();
                 assert forall|h0: Map<usize, nat>, h1: Map<usize, nat>, hl: Map<usize, nat>, x: V|
@@ -515,122 +731,115 @@ impl<const K: usize> AffTree<K> {
 //@loop 1
             invariant
                 K >= 2, K < usize::MAX, lhs.tree.wf(), lhs.tree.root is Some, aff_shape_ok(lhs.a(), lhs.in_dim),
-                terminals_ok(old(rhs).a(), terminals@, lhs.in_dim), old(rhs).tree.wf(),
-                0 <= __t <= terminals@.len(),
+                terminals_ok(old(rhs).a(), terminals@, lhs.in_dim),
+                0 <= __t <= terminals@.len(), rl == lhs.tree.root.unwrap(),
                 rhs.tree.wf(), rhs.tree.root == old(rhs).tree.root, rhs.in_dim == old(rhs).in_dim, aff_shape_ok(rhs.a(), rhs.in_dim),
-                old_nodes_kept(old(rhs).a(), rhs.a(), terminals@),
-                // terminals still to come are untouched, the earlier ones carry their copy
-                forall|j: int| __t <= j < terminals@.len() ==> rhs.a()[#[trigger] terminals@[j]] == old(rhs).a()[terminals@[j]],
-                forall|j: int| 0 <= j < __t ==> grafted(lhs.a(), rhs.a(), old(rhs).a().dom(), lhs.tree.root.unwrap(), #[trigger] terminals@[j],
-                    old(rhs).a()[terminals@[j]].value.aff.mat.m(), old(rhs).a()[terminals@[j]].value.aff.bias.v(), rhs.in_dim),
+                // decisions and unlisted terminals untouched; terminals still to come untouched; the earlier ones carry their copy
+                old_nodes_kept(old(rhs).a(), rhs.a(), terminals@), untouched(old(rhs).a(), rhs.a(), terminals@, __t as int),
+                grafted_upto(lhs.a(), rhs.a(), old(rhs).a(), rl, terminals@, __t as int, rhs.in_dim),
 //@hint loop 1 start
             let ghost a_start = rhs.a();
-            let ghost rl = lhs.tree.root.unwrap();
-            proof { assert(terminals@[__t as int] == terminals@[__t as int]); }
+            proof { lemma_pick(old(rhs).a(), a_start, terminals@, __t as int, lhs.in_dim, rhs.in_dim); }
 //@hint after rhs.update_node(terminal_idx, new_root_aff).unwrap();
             let ghost mut phi: Map<usize, usize> = Map::<usize, usize>::empty().insert(rl, terminal_idx);
             let ghost mut done: Set<usize> = Set::<usize>::empty();
             proof {
                 broadcast use axiom_array2_shape;
-                assert(a_start[terminal_idx] == old(rhs).a()[terminal_idx]);
-                assert(no_kids(rhs.a()[terminal_idx])) by { assert(no_kids(a_start[terminal_idx])); }
-                lemma_graft_init(lhs.a(), rhs.a(), a_start.dom(), rl, terminal_idx, terminal_aff.mat.m(), terminal_aff.bias.v(), rhs.in_dim);
-                assert(aff_shape_ok(rhs.a(), rhs.in_dim)) by {
-                    assert forall|i: usize| #![trigger rhs.a()[i].value] rhs.a().dom().contains(i) implies rhs.a()[i].value.aff.ok() && rhs.a()[i].value.aff.mat.ncols() == rhs.in_dim
-                        && (!rhs.a()[i].isleaf ==> 1 <= rhs.a()[i].value.aff.mat.nrows() < 16 && (1usize << (rhs.a()[i].value.aff.mat.nrows() as usize)) <= K) by {
-                        if i != terminal_idx { assert(rhs.a()[i] == a_start[i]); }
-                    }
-                }
+                lemma_start(lhs.a(), a_start, rhs.a(), rl, terminal_idx, terminal_aff.mat.m(), terminal_aff.bias.v(), rhs.in_dim);
             }
 //@loop 2
                 invariant
                     K >= 2, K < usize::MAX, lhs.tree.wf(), lhs.tree.root is Some, aff_shape_ok(lhs.a(), lhs.in_dim),
-                terminals_ok(old(rhs).a(), terminals@, lhs.in_dim), old(rhs).tree.wf(),
-                    0 < __t <= terminals@.len(), terminal_idx == terminals@[__t - 1],
+                terminals_ok(old(rhs).a(), terminals@, lhs.in_dim),
+                    0 < __t <= terminals@.len(), terminal_idx == terminals@[__t - 1], rl == lhs.tree.root.unwrap(),
                     rhs.tree.wf(), rhs.tree.root == old(rhs).tree.root, rhs.in_dim == old(rhs).in_dim, aff_shape_ok(rhs.a(), rhs.in_dim),
                     // what held when this terminal was taken up, and what has changed since
-                    old_nodes_kept(old(rhs).a(), a_start, terminals@),
-                    forall|j: int| __t - 1 <= j < terminals@.len() ==> a_start[#[trigger] terminals@[j]] == old(rhs).a()[terminals@[j]],
-                    forall|j: int| 0 <= j < __t - 1 ==> grafted(lhs.a(), a_start, old(rhs).a().dom(), lhs.tree.root.unwrap(), #[trigger] terminals@[j],
-                        old(rhs).a()[terminals@[j]].value.aff.mat.m(), old(rhs).a()[terminals@[j]].value.aff.bias.v(), rhs.in_dim),
+                    old_nodes_kept(old(rhs).a(), a_start, terminals@), untouched(old(rhs).a(), a_start, terminals@, __t - 1),
+                    grafted_upto(lhs.a(), a_start, old(rhs).a(), rl, terminals@, __t - 1, rhs.in_dim),
                     frame_except(a_start, rhs.a(), terminal_idx),
                     terminal_aff.ok(), terminal_aff.mat.ncols() == rhs.in_dim, terminal_aff.mat.nrows() == lhs.in_dim,
                     terminal_aff.mat.m() == old(rhs).a()[terminal_idx].value.aff.mat.m(), terminal_aff.bias.v() == old(rhs).a()[terminal_idx].value.aff.bias.v(),
-                    rl == lhs.tree.root.unwrap(),
                     graft_inv(lhs.a(), rhs.a(), a_start.dom(), phi, done, None, rl, terminal_idx, terminal_aff.mat.m(), terminal_aff.bias.v(), rhs.in_dim),
                     stack_ok(phi, done, None, stack@),
+                ensures stack@.len() == 0,
 //@hint loop 2 start
-                let ghost st_before = stack@.push((parent0_idx, parent1_idx));
                 proof {
-                    lemma_graft_pop(lhs.a(), rhs.a(), a_start.dom(), phi, done, rl, terminal_idx, terminal_aff.mat.m(), terminal_aff.bias.v(), rhs.in_dim, st_before);
-                    assert(st_before.drop_last() =~= stack@);
-                    lemma_kid_seq_members(lhs.a()[parent0_idx].children, 0);
+                    lemma_pop_ex(lhs.a(), lhs.tree.root, rhs.a(), a_start.dom(), phi, done, rl, terminal_idx, terminal_aff.mat.m(), terminal_aff.bias.v(), rhs.in_dim,
+                        stack@, (parent0_idx, parent1_idx));
                     lemma_kid_seq_len(lhs.a()[parent0_idx].children, 0);
                 }
 //@loop 3
                     invariant
                         K >= 2, K < usize::MAX, lhs.tree.wf(), lhs.tree.root is Some, aff_shape_ok(lhs.a(), lhs.in_dim),
-                terminals_ok(old(rhs).a(), terminals@, lhs.in_dim), old(rhs).tree.wf(),
-                        0 < __t <= terminals@.len(), terminal_idx == terminals@[__t - 1],
+                terminals_ok(old(rhs).a(), terminals@, lhs.in_dim),
+                        0 < __t <= terminals@.len(), terminal_idx == terminals@[__t - 1], rl == lhs.tree.root.unwrap(),
                     rhs.tree.wf(), rhs.tree.root == old(rhs).tree.root, rhs.in_dim == old(rhs).in_dim, aff_shape_ok(rhs.a(), rhs.in_dim),
                     // what held when this terminal was taken up, and what has changed since
-                    old_nodes_kept(old(rhs).a(), a_start, terminals@),
-                    forall|j: int| __t - 1 <= j < terminals@.len() ==> a_start[#[trigger] terminals@[j]] == old(rhs).a()[terminals@[j]],
-                    forall|j: int| 0 <= j < __t - 1 ==> grafted(lhs.a(), a_start, old(rhs).a().dom(), lhs.tree.root.unwrap(), #[trigger] terminals@[j],
-                        old(rhs).a()[terminals@[j]].value.aff.mat.m(), old(rhs).a()[terminals@[j]].value.aff.bias.v(), rhs.in_dim),
+                    old_nodes_kept(old(rhs).a(), a_start, terminals@), untouched(old(rhs).a(), a_start, terminals@, __t - 1),
+                    grafted_upto(lhs.a(), a_start, old(rhs).a(), rl, terminals@, __t - 1, rhs.in_dim),
                     frame_except(a_start, rhs.a(), terminal_idx),
                     terminal_aff.ok(), terminal_aff.mat.ncols() == rhs.in_dim, terminal_aff.mat.nrows() == lhs.in_dim,
                     terminal_aff.mat.m() == old(rhs).a()[terminal_idx].value.aff.mat.m(), terminal_aff.bias.v() == old(rhs).a()[terminal_idx].value.aff.bias.v(),
-                        rl == lhs.tree.root.unwrap(),
                         graft_inv(lhs.a(), rhs.a(), a_start.dom(), phi, done, Some(parent0_idx), rl, terminal_idx, terminal_aff.mat.m(), terminal_aff.bias.v(), rhs.in_dim),
                         stack_ok(phi, done, Some(parent0_idx), stack@),
                         // the node being expanded and its copy
                         phi.dom().contains(parent0_idx), phi[parent0_idx] == parent1_idx, !done.contains(parent0_idx),
+                        lhs.a().dom().contains(parent0_idx), rhs.a().dom().contains(parent1_idx),
+                        rhs.a()[parent1_idx].value.aff.mat.nrows() == lhs.a()[parent0_idx].value.aff.mat.nrows(),
                         0 <= __i <= __kids@.len(), __kids@.len() == kid_seq(lhs.a()[parent0_idx].children, 0).len(), __kids@.len() <= K,
-                        n_children0 == __kids@.len(),
                         forall|j: int| 0 <= j < __kids@.len() ==> (#[trigger] __kids@[j]).source_idx == parent0_idx
                             && __kids@[j].label == kid_seq(lhs.a()[parent0_idx].children, 0)[j].0 && __kids@[j].target_idx == kid_seq(lhs.a()[parent0_idx].children, 0)[j].1,
                         created_children == __i, skipped_children == 0,
-                        // children copied so far / still to come
-                        forall|j: int| __i <= j < __kids@.len() ==> rhs.a()[parent1_idx].children[(#[trigger] __kids@[j]).label as int].is_none() && !phi.dom().contains(__kids@[j].target_idx),
-                        forall|j: int| 0 <= j < __i ==> phi.dom().contains((#[trigger] __kids@[j]).target_idx)
-                            && rhs.a()[parent1_idx].children[__kids@[j].label as int] == Some(phi[__kids@[j].target_idx]),
-                        forall|l: int| 0 <= l < K && (#[trigger] rhs.a()[parent1_idx].children[l]).is_some() ==> exists|j: int| 0 <= j < __i && (#[trigger] __kids@[j]).label == l,
-                        rhs.a()[parent1_idx].isleaf <==> __i == 0,
+                        kids_progress(kid_seq(lhs.a()[parent0_idx].children, 0), rhs.a()[parent1_idx], phi, __i as int),
 //@hint loop 3 start
                     let ghost a_pre = rhs.a();
                     proof {
+                        reveal(kids_progress);
                         lemma_kid_seq_members(lhs.a()[parent0_idx].children, 0);
-                        lemma_kid_seq_len(lhs.a()[parent0_idx].children, 0);
+                        assert(__kids@[__i as int].label == kid_seq(lhs.a()[parent0_idx].children, 0)[__i as int].0);
                     }
 //@hint after let child1_idx = rhs .tree .add_child_node(parent1_idx, label, AffContent::new(child1_aff)) .unwrap();
                     proof {
                         broadcast use axiom_array2_shape;
-                        lemma_graft_child(lhs.a(), a_start, a_pre, rhs.a(), phi, done, rl, terminal_idx, terminal_aff.mat.m(), terminal_aff.bias.v(), rhs.in_dim,
-                            stack@, parent0_idx, label, child0_idx, child1_idx);
-                        lemma_count_zero_no_kids(lhs.a()[parent0_idx], 0);
-                        lemma_shape_child(lhs.a(), a_pre, rhs.a(), rhs.in_dim, lhs.in_dim, parent0_idx, parent1_idx, label, child1_idx);
+                        lemma_child_step(lhs.a(), lhs.tree.root, lhs.in_dim, a_start, a_pre, rhs.a(), phi, done, rl, terminal_idx, terminal_aff.mat.m(), terminal_aff.bias.v(), rhs.in_dim,
+                            stack@, parent0_idx, __i as int, child1_idx);
                         phi = phi.insert(child0_idx, child1_idx);
                     }
 //@hint loop 3 after
                 proof {
-                    lemma_count_zero_no_kids(lhs.a()[parent0_idx], 0);
-                    lemma_mirror_from_kids(lhs.a()[parent0_idx], rhs.a()[parent1_idx], phi);
-                    lemma_graft_done(lhs.a(), rhs.a(), a_start.dom(), phi, done, rl, terminal_idx, terminal_aff.mat.m(), terminal_aff.bias.v(), rhs.in_dim, stack@, parent0_idx);
+                    lemma_node_done(lhs.a(), lhs.tree.root, rhs.a(), a_start.dom(), phi, done, rl, terminal_idx, terminal_aff.mat.m(), terminal_aff.bias.v(), rhs.in_dim, stack@, parent0_idx);
                     done = done.insert(parent0_idx);
                 }
 //@hint loop 2 after
             proof {
                 assert(stack@ =~= Seq::<(usize, usize)>::empty());
-                lemma_graft_finish(lhs.a(), rhs.a(), a_start.dom(), old(rhs).a().dom(), phi, done, rl, terminal_idx, terminal_aff.mat.m(), terminal_aff.bias.v(), rhs.in_dim);
-                assert forall|j: int| 0 <= j < __t - 1 implies grafted(lhs.a(), rhs.a(), old(rhs).a().dom(), rl, #[trigger] terminals@[j],
-                    old(rhs).a()[terminals@[j]].value.aff.mat.m(), old(rhs).a()[terminals@[j]].value.aff.bias.v(), rhs.in_dim) by {
-                    lemma_graft_frame(lhs.a(), a_start, rhs.a(), old(rhs).a().dom(), rl, terminals@[j],
-                        old(rhs).a()[terminals@[j]].value.aff.mat.m(), old(rhs).a()[terminals@[j]].value.aff.bias.v(), rhs.in_dim, terminal_idx);
-                }
-                assert(terminals@.contains(terminal_idx)) by { assert(terminals@[__t - 1] == terminal_idx); }
-                assert(old_nodes_kept(old(rhs).a(), rhs.a(), terminals@));
+                lemma_terminal_done(lhs.a(), old(rhs).a(), a_start, rhs.a(), terminals@, __t as int, lhs.in_dim, phi, done, rl,
+                    terminal_aff.mat.m(), terminal_aff.bias.v(), rhs.in_dim);
             }
+//@end
+
+//@fn src/pwl/impl_composition.rs | impl<const K: usize> AffTree<K> | compose
+//@sigsub <const PRUNE: bool, const VERBOSE: bool> =>
+//@bodysub if PRUNE && VERBOSE { AffTree::<K>::generic_composition_inplace( other, self, self.tree.terminal_indices().collect_vec(), FunctionCompositionInfeasible {}, CompositionConsole::new(), ); } else if PRUNE && !VERBOSE { AffTree::<K>::generic_composition_inplace( other, self, self.tree.terminal_indices().collect_vec(), FunctionCompositionInfeasible {}, NoOpVis {}, ); } else if !PRUNE && VERBOSE { AffTree::<K>::generic_composition_inplace( other, self, self.tree.terminal_indices().collect_vec(), FunctionComposition {}, CompositionConsole::new(), ); } else { => {
+//@bodysub self.tree.terminal_indices().collect_vec(), FunctionComposition {}, NoOpVis {}, => leaves_for(&self.tree, Ghost(other.in_dim)),
+//@spec
+    requires K >= 2, K < usize::MAX,
+        other.tree.wf(), other.tree.root is Some, aff_shape_ok(other.a(), other.in_dim),
+        old(self).tree.wf(), aff_shape_ok(old(self).a(), old(self).in_dim),
+        // dimension-compatible: every terminal of the receiver produces an input of `other`
+        forall|i: usize| old(self).a().dom().contains(i) && #[trigger] old(self).a()[i].isleaf ==> old(self).a()[i].value.aff.mat.nrows() == other.in_dim,
+    ensures
+        final(self).tree.wf(), final(self).tree.root == old(self).tree.root, final(self).in_dim == old(self).in_dim,
+        aff_shape_ok(final(self).a(), final(self).in_dim),
+        // C02 for compose::<false, false>: h(x) = g(f(x)) for every input, undefinedness included (f = receiver before, g = other)
+        forall|h0: Map<usize, nat>, h1: Map<usize, nat>, hl: Map<usize, nat>, x: V|
+            #![trigger tree_fn(final(self).a(), h1, old(self).tree.root.unwrap(), x), and_then_fn(old(self).a(), h0, other.a(), hl, other.tree.root.unwrap(), old(self).tree.root.unwrap(), x)]
+            old(self).tree.root is Some && ranked_down(old(self).a(), h0) && ranked_down(final(self).a(), h1) && ranked_down(other.a(), hl) && x.len() == old(self).in_dim ==>
+            tree_fn(final(self).a(), h1, old(self).tree.root.unwrap(), x) == and_then_fn(old(self).a(), h0, other.a(), hl, other.tree.root.unwrap(), old(self).tree.root.unwrap(), x),
+        // the nodes of the receiver keep their indices
+        forall|i: usize| old(self).a().dom().contains(i) ==> #[trigger] final(self).a().dom().contains(i),
+//@hint start
+        proof { reveal(old_nodes_kept); }
 //@end
 }
 
